@@ -1,4 +1,5 @@
 import XmlRsModel.Lemmas.DomInv
+import XmlRsModel.Lemmas.DomNorm
 /-! Every operation of the DOM model keeps the invariant: `step_grow` says what a step may do to
     the multiset of node ids (keep them, and add ids drawn from the allocation counter only). -/
 namespace XmlRs.Dom
@@ -252,7 +253,7 @@ theorem step_grow (s : St) (op : Op) (hi : Inv s) : Grow s (step s op).1 := by
   | insertBefore p c r => simp only [step]; exact (insertChild_sameIds s p c r hi).grow
   | removeChild p c => simp only [step]; exact (removeChild_sameIds s p c hi).grow
   | replaceChild p new old => exact (replaceChild_sameIds s p new old hi).grow
-  | normalize e => simp only [step]; exact Grow.refl s
+  | normalize e => exact (normalize_sameIds s e hi).grow
   | setData n d => simp only [step]; exact (dataOp_sameIds s n _ hi).grow
   | appendData n d => simp only [step]; exact (dataOp_sameIds s n _ hi).grow
   | insertData n off d => simp only [step]; exact (dataOp_sameIds s n _ hi).grow
